@@ -17,7 +17,7 @@ use crate::plan::Plan;
 use ruint::Uint;
 use std::str::FromStr;
 
-pub const NOPS: u64 = 93;
+pub const NOPS: u64 = 99;
 /// operations that are expensive on very wide types (skipped above 1024 bits)
 fn heavy(op: u64) -> bool {
     matches!(op, 40..=52)
@@ -242,6 +242,60 @@ fn apply<const B: usize, const L: usize>(op: u64, a: Uint<B, L>, b: Uint<B, L>, 
         88 => ("approx_pow2", o(Uint::<B, L>::approx_pow2((k % (B as u64 + 8)) as f64 + 0.3))),
         89 => ("try_from(u128)", Uint::<B, L>::try_from(u128::from(k) * u128::from(k)).ok().into_iter().collect()),
         90 => ("try_from(f64)", Uint::<B, L>::try_from((k % 100000) as f64 + 0.5).ok().into_iter().collect()),
+        93 => ("by-reference operators", vec![&a + &b, &a - &b, &a * &b, a + &b, &a - b, a * &b, &a & &b, &a | &b, &a ^ &b, !&a, -&a]),
+        94 => ("div/rem assign and by-reference", {
+            if b.is_zero() {
+                vec![]
+            } else {
+                let mut x = a;
+                x /= b;
+                let mut y = a;
+                y %= b;
+                let mut z = a;
+                z /= &b;
+                vec![x, y, z, &a / &b, &a % &b]
+            }
+        }),
+        95 => ("Sum / Product traits", {
+            let xs = [a, b, small];
+            vec![xs.iter().sum(), xs.iter().product(), xs.into_iter().sum(), xs.into_iter().product()]
+        }),
+        96 => ("shift by Uint / by reference / other integer types", {
+            let amt: Uint<B, L> = Uint::wrapping_from(sh as u64);
+            let mut x = a;
+            x <<= amt;
+            let mut y = a;
+            y >>= amt;
+            let mut z = a;
+            z <<= sh as u32 as usize;
+            vec![a << amt, a >> amt, a << &amt, a >> &amt, a << &sh, a >> &sh, a << (sh as u8), a >> (sh as u16), a << (sh as u32), a >> (sh as u64), x, y, z]
+        }),
+        97 => ("by-reference assign operators", {
+            let mut x = a;
+            x += &b;
+            let mut y = a;
+            y -= &b;
+            let mut z = a;
+            z *= &b;
+            let mut w = a;
+            w &= &b;
+            w |= &small;
+            w ^= &a;
+            vec![x, y, z, w]
+        }),
+        98 => ("Bits assign operators", {
+            let mut x = ruint::Bits::from(a);
+            x &= ruint::Bits::from(b);
+            let mut y = ruint::Bits::from(a);
+            y |= ruint::Bits::from(b);
+            let mut z = ruint::Bits::from(a);
+            z ^= ruint::Bits::from(b);
+            let mut w = ruint::Bits::from(a);
+            w <<= sh;
+            let mut v = ruint::Bits::from(a);
+            v >>= sh;
+            vec![x.into_inner(), y.into_inner(), z.into_inner(), w.into_inner(), v.into_inner()]
+        }),
         91 => ("from_be_slice / from_le_slice (raw bytes)", {
             // possibly out-of-range bytes: the panicking constructors must panic or return a canonical value
             let mut bytes = (!a).to_be_bytes_vec();
